@@ -187,3 +187,47 @@ Proof.
 Qed.
 
 End WithThr2.
+
+(** ** the same with every premise in the form the run functions evaluate on the two writings themselves *)
+From SK Require Import proof.C05_Capstone.
+
+Lemma side_ok0_relabel sg pi (Hs : inj sg) (Hp : inj pi) (host : hostg) (p : prepared) :
+  side_ok0 host p -> side_ok0 (relabel pi host) (relabel_prep sg p).
+Proof.
+  intros S. constructor; unfold relabel_prep; cbn [p_rc p_l p_r p_flag p_pat].
+  - exact (s0_flag _ _ S).
+  - rewrite host_c06_relabel. apply gwf_relabel; [exact Hp | exact (s0_host _ _ S)].
+  - rewrite pat_c06_relabel. apply gwf_relabel; [exact Hs | exact (s0_pat _ _ S)].
+  - rewrite (node_ids_relabel _ _ sg (p_rc p)). apply FinFun.Injective_map_NoDup; [exact Hs | exact (s0_rc_nodup _ _ S)].
+  - unfold relabel; simpl. rewrite (simple_relabel sg Hs). exact (s0_rc_simple _ _ S).
+  - intros a b x I. unfold relabel in I; simpl in I. apply in_map_iff in I. destruct I as ([[a0 b0] x0] & E & I).
+    inversion E; subst. destruct (s0_rc_closed _ _ S a0 b0 _ I) as [Ia Ib].
+    rewrite (node_ids_relabel _ _ sg (p_rc p)). split; apply in_map; assumption.
+  - intros u I. rewrite (node_ids_relabel _ _ sg (p_pat p)) in I. apply in_map_iff in I. destruct I as (u0 & <- & I).
+    rewrite (node_ids_relabel _ _ sg (p_rc p)). apply in_map. exact (s0_pat_rc _ _ S u0 I).
+Qed.
+
+Section WithThr3.
+Context {TH : Thr}.
+
+Theorem glued_set_any_options_checked (pref : bool) (sg pi : N -> N) (Hs : inj sg) (Hp : inj pi)
+        (host0 host : hostg) (p0 p : prepared) :
+  side_okb0 host0 p0 = true -> side_okb0 host p = true ->
+  C06_Model.wfb (host_c06 host0) = true -> C06_Model.wfb (host_c06 host) = true ->
+  C06_Model.wfb (pat_c06 (p_pat p0)) = true -> C06_Model.wfb (pat_c06 (p_pat p)) = true ->
+  same_graph (relabel pi host0) host -> same_graph (relabel sg (p_rc p0)) (p_rc p) -> same_graph (relabel sg (p_pat p0)) (p_pat p) ->
+  (forall T, In T (glued_of_pf pref 0%N host0 p0) -> exists T', In T' (glued_of_pf pref 0%N host p) /\ obs_eq (relabel pi T) T') /\
+  (forall T', In T' (glued_of_pf pref 0%N host p) -> exists T, In T (glued_of_pf pref 0%N host0 p0) /\ obs_eq (relabel pi T) T').
+Proof.
+  intros B0 B W1 W2 W3 W4 Hh Hr Hpt.
+  apply (glued_set_rewriting_any_cap_pf pref sg pi Hs Hp host0 host p0 p); try assumption.
+  - apply side_ok0_relabel; [assumption | assumption | apply side_okb0_ok; exact B0].
+  - apply side_okb0_ok. exact B.
+  - rewrite host_c06_relabel. apply C01_GraphLemmas.wf_relabel; [exact Hp|]. apply C06_Main.wfb_spec. exact W1.
+  - apply C06_Main.wfb_spec. exact W2.
+  - destruct p0 as [rc l r fl pat]. cbn [relabel_prep p_pat] in *. rewrite pat_c06_relabel.
+    apply C01_GraphLemmas.wf_relabel; [exact Hs|]. apply C06_Main.wfb_spec. exact W3.
+  - apply C06_Main.wfb_spec. exact W4.
+Qed.
+
+End WithThr3.
